@@ -322,7 +322,7 @@ def rpa_layout(ctx):
     R.check('address_bytes = crypto.ah(irk, prand) + prand' in norm(gen), rule, 'bumble.hci.Address.generate_private_address', 'address = ah(irk, prand) || prand', 'RPA layout on generation changed', p.loc(gen))
     d = {dotted(n.targets[0]): slice_parts(n.value) for n in walk_local(res) if isinstance(n, ast.Assign) and slice_parts(n.value)}
     R.check(d.get('hash_part') == ('address_bytes', '0', '3') and d.get('prand') == ('address_bytes', '3', '6'), rule, 'bumble.smp.AddressResolver.resolve | slices', 'hash = bytes 0..2, prand = bytes 3..5 (as generated)', f'resolver slices {d}', p.loc(res))
-    R.check('local_hash = crypto.ah(irk, prand)' in norm(res) and 'local_hash == hash_part' in norm(res), rule, 'bumble.smp.AddressResolver.resolve | compare', 'ah(irk, prand) compared with the hash part', 'resolver comparison changed', p.loc(res))
+    R.check('local_hash = crypto.ah(irk, prand)' in norm(res) and 'hash_part == local_hash' in norm(res), rule, 'bumble.smp.AddressResolver.resolve | compare', 'ah(irk, prand) compared with the hash part', 'resolver comparison changed', p.loc(res))
     rets = [r for r in walk_local(ah) if isinstance(r, ast.Return)]
     R.check(len(rets) == 1 and slice_parts(rets[0].value) == ('e(k, r_prime)', '0', '3') and 'r_prime = r + padding' in norm(ah) and 'padding = bytes(13)' in norm(ah), rule, 'bumble.crypto.ah', 'ah = e(k, r || 13 zero bytes)[0:3]', 'ah() definition changed', p.loc(ah))
     # prand bits: ((b & 0x7F) | 0x40) >> 6 == 1  (known bits)
